@@ -51,6 +51,7 @@ type ontChain struct {
 	ccmc   []byte
 	dst    uint64
 	memo   map[uint32]*otypes.Header
+	byPub  map[string]*account.Account
 }
 
 // maskMembers turns a bit mask over the pool into a peer set of 4..7 members (robust against
@@ -88,6 +89,10 @@ func newOntChain(seed, id uint64, n0 int, g0 uint32, maxH uint32, changes []ontC
 	}
 	for i := 0; i < ontOutsider; i++ {
 		c.out = append(c.out, chain.NewAccount(seed, fmt.Sprintf("ontout%d", i)))
+	}
+	c.byPub = map[string]*account.Account{}
+	for _, a := range append(append([]*account.Account{}, c.pool...), c.out...) {
+		c.byPub[chain.PubHex(a)] = a
 	}
 	if n0 < 4 {
 		n0 = 4
@@ -220,6 +225,24 @@ func (c *ontChain) forged(h uint32, mask int64) *otypes.Header {
 		}
 	}
 	return c.build(h, 1+uint64(abs64(mask)), chainConfig(99, set, false))
+}
+
+// announced returns one of three mutually disjoint 4-member sets a relayed configuration-change
+// header may announce (used by the key-height-order episodes): two halves of the upper pool
+// and the outsiders.
+func (c *ontChain) announced(which int64) []*account.Account {
+	switch abs64(which) % 3 {
+	case 0:
+		return append([]*account.Account{}, c.pool[6:10]...)
+	case 1:
+		return append([]*account.Account{}, c.out[:4]...)
+	}
+	return append([]*account.Account{}, c.pool[2:6]...)
+}
+
+// keyChange is a header of height h that announces announced(which).
+func (c *ontChain) keyChange(h uint32, which int64) *otypes.Header {
+	return c.build(h, 5000+uint64(abs64(which)%3), chainConfig(uint32(50+abs64(which)%3), c.announced(which), false))
 }
 
 // altGenesis is a different, equally well-formed trust root: another peer set at the same height.
